@@ -42,8 +42,13 @@ def model_expr(c, recs):
         elif o in ('readdir', 'readdirplus'):
             now = r['sizes'][4]; had = r['h'] in ck
             if not ok:
-                host = 'None'
-                if now == prev_cookies - 1: ck.discard(r['h'])
+                # an error after getdents64 returned something (the position record was written again): the
+                # listing itself worked, a later step failed (do_lookup of an entry: the inode was forgotten)
+                if not no_opendir and (now - prev_cookies) == (0 if had else 1) and now > 0 and r['res'] == EBADF:
+                    host = '(Some true)'; ck.add(r['h'])
+                else:
+                    host = 'None'
+                    if now == prev_cookies - 1: ck.discard(r['h'])
             else:
                 if r['ents'] or no_opendir: nonempty = True
                 else: nonempty = (now - prev_cookies) == (0 if had else 1)     # host oracle inferred from the cookie table
@@ -72,9 +77,20 @@ def predicate(c, recs):
     -> (step index, label, detail) or None"""
     ifh = c['mode'][0]; no_open, no_opendir = c['no_open'], c['no_opendir']
     led = {}; ever = set()
+    iled = {1: 2}            # the client's references per inode NUMBER as the server reported it (registers may alias)
+    def forget(n, cnt):
+        if n != 1: iled[n] = iled.get(n, 0) - min(cnt, iled.get(n, 0))
     fds0 = recs[0]['fds']
     for k, r in enumerate(recs[1:]):
         o = r['op']; ok = r['res'] == 0
+        if o in ('lookup', 'mkdir', 'mknod', 'symlink', 'link', 'create') and ok: iled[r['ino']] = iled.get(r['ino'], 0) + 1
+        elif o == 'forget': forget(r['ino'], r['count'])
+        elif o == 'bforget':
+            for a, b in r['reqs']: forget(a, b)
+        elif o == 'readdirplus':
+            for e in r['ents']:
+                if e['del']: iled[e['ino']] = iled.get(e['ino'], 0) + 1
+        elif o == 'destroy': iled = {1: 2}
         newh = None
         if o in ('open', 'opendir') and ok: newh = (r['h'], r['ino'])
         if o == 'create' and ok and r['h'] >= 0: newh = (r['h'], r['ino'])
@@ -99,7 +115,10 @@ def predicate(c, recs):
         if o in ('readdir', 'readdirplus') and not no_opendir:
             pair = led.get(r['h']) == r['ino']
             if not pair and r['res'] != EBADF: return (k, 'handle-use', 'readdir with a pair the client does not hold answered %d' % r['res'])
-            if pair and r['res'] == EBADF: return (k, 'handle-use', 'readdir with a held pair answered EBADF')
+            # a handle does not keep its inode alive: once the client has forgotten every reference to the number
+            # (over-counted forgets included) the entries can no longer be looked up and EBADF is the right answer
+            if pair and r['res'] == EBADF and iled.get(r['ino'], 0) > 0:
+                return (k, 'handle-use', 'readdir with a held pair on inode %d (client holds %d references) answered EBADF' % (r['ino'], iled.get(r['ino'], 0)))
         if o == 'destroy': led = {}
         sz = r['sizes']
         if sz[3] != len(led): return (k, 'handle-table', 'server holds %d handles, client %d' % (sz[3], len(led)))
